@@ -47,6 +47,15 @@ FAMILIES = {
         "vh_cfg": {},
         "tiers": {"quick": {"rand": 300, "rlen": 50, "chunks": 8}, "thorough": {"rand": 6000, "rlen": 60, "chunks": 14}},
     },
+    "mint": {
+        "fix_all": ["clamp"],
+        "mc": {"module": "MCMint", "cfg": {"quick": "Mint-mc-quick.cfg", "thorough": ["Mint-mc-quick.cfg"]}, "timeout": {"quick": 300, "thorough": 900}},
+        "enum": {"module": "MCMint", "cfg": {"quick": "Mint-enum-quick.cfg", "thorough": "Mint-enum.cfg"},
+                 "tiers": {"quick": {"depth": 14}, "thorough": {"depth": 14}}},
+        "trace_module": "MintTrace", "trace_cfg": "Mint-trace.cfg",
+        "vh_cfg": {},
+        "tiers": {"quick": {"rand": 200, "rlen": 25, "chunks": 8}, "thorough": {"rand": 3000, "rlen": 40, "chunks": 14}},
+    },
 }
 
 SP_ASSUME = COMMON_ASSUME + [
@@ -152,5 +161,14 @@ PROPS = {
         "bug_variants": [("gaugeid", ["PC12"], "SP-mc-pay12.cfg")],
         "rule": "non-trivial = a reward block while some gauge account holds tokens; distinct = distinct (pre-state, block, post-state) triples",
         "assumptions": SP_ASSUME,
+    },
+    "C13": {
+        "family": "mint", "formulas": ["C13_Step", "C13_Params"], "nt": "C13",
+        "bug_variants": [("clamp", ["PC13"], "Mint-mc-quick.cfg")],
+        "rule": "non-trivial = a block boundary executed by the whole application (real BeginBlock/EndBlock/Commit); "
+                "distinct = distinct (pre-state, post-state) pairs, i.e. distinct (parameters, previous emission, balances)",
+        "assumptions": COMMON_ASSUME + ["whole-app ABCI blocks on a fresh chain per history; mint parameters installed through genesis and the params keeper",
+                                         "stakers' sink = fee collector + distribution module account (distribution sweeps the fee collector every block)",
+                                         "parameter sets: non-negative, three ratios summing to at most 100, valid stipend address"],
     },
 }
